@@ -10,6 +10,7 @@ import TeraModel.Model.Serde
 import TeraModel.Lemmas.SerdeRoundtrip
 import TeraModel.Lemmas.SerdeBasics
 import TeraModel.Lemmas.SerdePrint
+import TeraModel.Lemmas.SerdeReser
 namespace Tera.Props.C19
 open Tera Tera.Serde
 
@@ -171,6 +172,24 @@ names are distinct. -/
 theorem context_insert_agree (k : List Char) (x : SVal) (v : Value) (c : Ctx) (h : ser x = .ok v) :
     ctxInsertSer k x c = some (ctxInsert k v c) := by
   simp [ctxInsertSer, h]
+
+
+/-- A `Value` handed to serde a second time (`Context::insert(k, &value)`,
+`Value::from_serializable(&value)`: `impl Serialize for Value / Key` composed with
+`ValueSerializer`) comes back as the same value — same kinds, same widths, same key kinds (a bool
+key stays a bool key, a u64 key a u64 key), bytes stay bytes — up to the two things the serde data
+model cannot carry: undefined becomes none and a safe string a normal string (`plainOf`). -/
+theorem reser_identity (v : Value) (h : KeysDistinct v) :
+    ser (valueSer v) = .ok (plainOf v) ∧ (plainOf v = v → ser (valueSer v) = .ok v) :=
+  ⟨reser_main v h, fun hp => Serde.reser_identity v h hp⟩
+
+/-- In particular for every CONVERTED value (anything `ser` produces has no undefined, no safe
+string and distinct keys): converting it again is the identity, so `context.insert(k, &value)`
+stores exactly what `context.insert_value(k, value)` stores — the two are interchangeable. -/
+theorem insert_of_converted_value_agrees (x : SVal) (v : Value) (h : ser x = .ok v) (k : List Char) (c : Ctx) :
+    ser (valueSer v) = .ok v ∧ ctxInsertSer k (valueSer v) c = some (ctxInsert k v c) := by
+  have hr := reser_of_converted x v h
+  exact ⟨hr, by simp [ctxInsertSer, hr]⟩
 
 /-- `Context::from_serialize(&s)` for a struct `s` is interchangeable with inserting its fields
 one by one with `insert` (which is `insert_value` of the converted value): same bindings, same
